@@ -254,7 +254,7 @@ def size_rules(fb, R):
         ok = len(own) == 1 and len(rec) == 1 and is_param(own[0]['args'][0]) and is_param(rec[0]['args'][0])
         if ok:
             ids = {own[0]['id']}
-            ok = path_search(fn, fn.entry, exit_t, lambda e: e in ids, from_block_start=True) is None
+            ok = path_search(fn, fn.entry, exit_t, lambda e: e in ids or _is_throw_or_noreturn(fn, e), from_block_start=True) is None
             gs = guards_of(fn, rec[0]['id'])
             ok = ok and any(sense and this_field(fn, c, 'm_parent') for (c, sense, _b) in gs)
 
@@ -264,7 +264,7 @@ def size_rules(fb, R):
                     return False
                 return True
             rid = {rec[0]['id']}
-            ok = ok and path_search(fn, fn.entry, exit_t, lambda e: e in rid, edge_ok, from_block_start=True) is None
+            ok = ok and path_search(fn, fn.entry, exit_t, lambda e: e in rid or _is_throw_or_noreturn(fn, e), edge_ok, from_block_start=True) is None
         R.check(ok, 'S1-add_size-self-and-ancestors', ADD, fn.site,
                 'Builder::add_size must add the size to the own item and, when there is a parent, recurse into m_parent->add_size(size) on every path')
     if not fb.fns(ADD):
@@ -289,7 +289,7 @@ def size_rules(fb, R):
             ids = {ad[0]['id']}
             ok = path_search(fn, fn.entry, exit_t, lambda e: e in ids or _is_throw_or_noreturn(fn, e), edge_ok, from_block_start=True) is None
             ids = {rs[0]['id']}
-            ok = ok and path_search(fn, fn.entry, exit_t, lambda e: e in ids, from_block_start=True) is None
+            ok = ok and path_search(fn, fn.entry, exit_t, lambda e: e in ids or _is_throw_or_noreturn(fn, e), from_block_start=True) is None
         R.check(ok, 'S2-builder-ctor-accounts-initial-size', BLD + '::(ctor)', fn.site,
                 'Builder constructor must reserve `size` bytes and add the same `size` to the parent chain when there is a parent')
 
@@ -403,7 +403,7 @@ def size_rules(fb, R):
             continue
         for fn in dts:
             pads = {n['id'] for n in _calls(fn, {PAD})}
-            w = path_search(fn, fn.entry, exit_t, lambda e: e in pads, from_block_start=True)
+            w = path_search(fn, fn.entry, exit_t, lambda e: e in pads or _is_throw_or_noreturn(fn, e), from_block_start=True)
             R.check(bool(pads) and w is None, 'S5-destructor-pads', cls + '::(dtor)', fn.site,
                     '%s::~ must call add_padding() on every path (8-byte alignment of the item sequence)' % cls)
     for fn in fb.functions:
@@ -624,6 +624,14 @@ def run(ctx):
     for cfg in configs:
         fb = ctx.facts(['core', 'io_read', 'relarea'], cfg)
         all_rules(fb, R)
+    if ctx.tier == 'thorough':
+        # every test/example unit of the repository's own build: other instantiations of the same templates
+        units = ctx.build_units(['builder', 'memory', 'io', 'area', 'relations', 'storage', 'examples', 'osm'])
+        n = 0
+        for _p, fb in ctx.each_unit_facts(units):
+            stale_rules(fb, R)
+            n += 1
+        R.note('thorough: STALE rules also applied to %d of %d test/example units of the build' % (n, len(units)))
     R.expect('STALE-L', 40)
     R.expect('STALE-F', 1)
     R.expect('B1-data-follows-memory', 4)
